@@ -64,6 +64,10 @@ class InitMethod(MethodDescriptor):
                         if not instance_attr_spec.init:
                             # Not a constructor argument of the parent either.
                             continue
+                        if kwargs.get(attr, MISSING) is MISSING:
+                            # (The key is always among `kwargs`, as `MISSING`
+                            # when it was not given.)
+                            kwargs.pop(attr, None)
                         if attr in kwargs:
                             # Values handed to the parent constructor are not
                             # copied there (see `copy_required` below), so
